@@ -44,14 +44,14 @@ type rMean struct {
 }
 
 type rObs struct {
-	Local   []rMean           `json:"local"`
-	Remote  []rMean           `json:"remote"`
+	Local   []rMean        `json:"local"`
+	Remote  []rMean        `json:"remote"`
 	LRefs   map[string]int `json:"lrefs"` // ref -> commit number after the call (0 absent, -1 unknown)
 	RRefs   map[string]int `json:"rrefs"`
 	LBefore map[string]int `json:"lbefore"`
 	RBefore map[string]int `json:"rbefore"`
-	Err     string            `json:"err"`
-	Div     []string          `json:"div"`
+	Err     string         `json:"err"`
+	Div     []string       `json:"div"`
 }
 
 type rLine struct {
